@@ -73,7 +73,57 @@ def run(prog, rep, tier, repo):
     from ..chunks import check_chunk_remainder
     check_chunk_remainder(prog, rep, 'chunk-remainder', lambda k: 'distributions::' in k)
     rep.trusted.append('alea::f64() lies in [0, 1)')
+    d11_total(prog, rep)
     return {}
+
+
+# valid parameter settings per constructor (the regimes the property names are inside: equal bounds, p in {0, 1})
+VALID = {
+    'bernoulli::Bernoulli': lambda a: 0. <= a['p'] <= 1.,
+    'beta::Beta': lambda a: a['alpha'] > 0 and a['beta'] > 0,
+    'binomial::Binomial': lambda a: a['n'] >= 1 and 0. <= a['p'] <= 1.,
+    'chi_squared::ChiSquared': lambda a: a['dof'] >= 1,
+    'discreteuniform::DiscreteUniform': lambda a: a['lower'] <= a['upper'],
+    'exponential::Exponential': lambda a: a['lambda'] > 0,
+    'gamma::Gamma': lambda a: a['alpha'] > 0 and a['beta'] > 0,
+    'gumbel::Gumbel': lambda a: a['beta'] > 0,
+    'normal::Normal': lambda a: a['sigma'] > 0,
+    'pareto::Pareto': lambda a: a['alpha'] > 0 and a['minval'] > 0,
+    'poisson::Poisson': lambda a: a['lambda'] > 0,
+    't::T': lambda a: a['dof'] > 0,
+    'uniform::Uniform': lambda a: a['lower'] <= a['upper'],
+}
+
+
+def d11_total(prog, rep):
+    """every valid parameter setting is accepted and can be sampled: no witness inside the valid region on which the constructor cannot
+    return (a bound check turned strict rejects the degenerate equal-bounds laws), and none admitted by the constructor on which
+    `sample` cannot return (a callee precondition the parameters do not guarantee)"""
+    from ..precond import check_returns, NC
+    pdb = prog.pdb
+    ncx = NC(prog)
+    n = 0
+    for d, valid in sorted(VALID.items()):
+        k = DS + d + '::new'
+        f = prog.func(k)
+        if f is None:
+            continue
+
+        def dom(env, at, valid=valid, f=f):
+            byname = {}
+            for nkey, val in env.items():
+                t = at[nkey][1]
+                if tag(t) == 'arg' and t[2]:
+                    byname[t[2]] = val
+            try:
+                return bool(valid(byname))
+            except KeyError:
+                return False          # a parameter the table does not know: no witness is claimed valid
+        n += check_returns(prog, rep, 'total', [k], domain=dom, ncx=ncx, what='although the parameters are a valid setting of the law')
+        sk = '<%s as %sDistribution>::sample' % (DS + d, DS)
+        if sk in pdb.bodies:
+            n += check_returns(prog, rep, 'total', [sk], ncx=ncx, what='for an object its constructor admits')
+    rep.floor('total', 26, 'new and sample of the 13 laws')
 
 
 # =============================================================================== D1
